@@ -666,7 +666,20 @@ def eval_roundtrip(ctx, cases):
 
 # ------------------------------------------------------------------ end to end through a v4 data set
 
-def gen_v4(rng):
+def gen_v4(rng, r=None):
+    r = rng.random() if r is None else r
+    if r < 0.15:
+        # self-calibration on two targets observed alternately: one underlying stream per target, merged by time
+        return dict(kind='v4', seed=rng.randrange(2 ** 31), T=rng.randint(4, 7), F=rng.randint(2, 5),
+                    products=rng.choice(['l2.GPHASE', 'l1.G,l2.GPHASE']), nan_gain=False, l2='two')
+    if r < 0.30:
+        # "split cal": the bandpass comes in two parts whose solution times differ (one part misses a solution)
+        return dict(kind='v4', seed=rng.randrange(2 ** 31), T=rng.randint(3, 6), F=2 * rng.randint(1, 3),
+                    products=rng.choice(['l1.B', 'l1.B,l1.G', 'l1.K,l1.B,l1.G']), nan_gain=False, split_b=True)
+    if r < 0.42:
+        # every gain solution is later than the last dump: the product exists but holds no usable solution
+        return dict(kind='v4', seed=rng.randrange(2 ** 31), T=rng.randint(3, 6), F=rng.randint(2, 6),
+                    products=rng.choice(['l1.G', 'l1.K,l1.G', 'l1.B,l1.G']), nan_gain=False, late_gain=True)
     if rng.random() < 0.35:
         # a self-calibration (L2) stream next to the L1 stream, with its OWN antenna / polarisation ordering
         return dict(kind='v4', seed=rng.randrange(2 ** 31), T=rng.randint(3, 6), F=rng.randint(2, 6),
@@ -697,10 +710,41 @@ def run_v4(case):
     center = 1284e6
     attrs = {'cal_antlist': ants, 'cal_pol_ordering': pols, 'cal_center_freq': center, 'cal_bandwidth': bandwidth,
              'cal_n_chans': F}
+    late = T + 2.0 if case.get('late_gain') else 0.0
     sensors = {'cal_product_K': [(-0.5, delays)], 'cal_product_B': [(-0.4, bp)],
-               'cal_product_G': [(float(t), g[t]) for t in range(T)]}
+               'cal_product_G': [(float(t) + late, g[t]) for t in range(T)]}
     archived = None
-    if case.get('l2'):
+    targets = None
+    split = None
+    if case.get('split_b'):
+        # solution times: -2 (both parts), -1 (lower part only), 2 (both parts again)
+        h = F // 2
+        sols = [(rs.uniform(0.5, 2, (F,) + pol_ant) * np.exp(2j * np.pi * rs.uniform(0, 1, (F,) + pol_ant)))
+                .astype(np.complex64) for _ in range(3)]
+        del sensors['cal_product_B']
+        attrs['cal_product_B_parts'] = 2
+        sensors['cal_product_B0'] = [(-2.0, sols[0][:h]), (-1.0, sols[1][:h]), (2.0, sols[2][:h])]
+        sensors['cal_product_B1'] = [(-2.0, sols[0][h:]), (2.0, sols[2][h:])]
+        split = (h, sols)
+    if case.get('l2') == 'two':
+        names = ['tA', 'tB']
+        descr = [v4synth.TARGETS[3], v4synth.TARGETS[1]]
+        which = [rs.randint(2) for _ in range(T)]
+        which[0], which[1] = 0, 1
+        if T > 2:
+            which[2] = 0                                    # interleaved in time: A B A ...
+        targets = [(-1.0, descr[which[0]])] + [(t - 0.5, descr[which[t]]) for t in range(1, T) if which[t] != which[t - 1]]
+        l2s = [f'continuum_{n}_selfcal' for n in names]
+        l2_ants, l2_pols = ants[::-1], pols[::-1]
+        gp = np.exp(2j * np.pi * rs.uniform(0, 1, (T, F) + pol_ant)).astype(np.complex64)    # [t, chan, l2 pol, l2 ant]
+        attrs.update({'cal_stream_type': 'sdp.cal', 'continuum_stream_type': 'sdp.continuum_image',
+                      'continuum_targets': dict(zip(descr, names)),
+                      f'{l2s[0]}_antlist': l2_ants, f'{l2s[0]}_pol_ordering': l2_pols, f'{l2s[0]}_center_freq': center,
+                      f'{l2s[0]}_bandwidth': bandwidth, f'{l2s[0]}_n_chans': F})
+        for k, l2 in enumerate(l2s):
+            sensors[f'{l2}_product_GPHASE'] = [(float(t), gp[t]) for t in range(T) if which[t] == k]
+        archived = ['cal', 'continuum']
+    elif case.get('l2'):
         l2 = 'continuum_tgt_selfcal'
         l2_ants, l2_pols = ants[::-1], pols[::-1]
         gp = np.exp(2j * np.pi * rs.uniform(0, 1, (T, F) + pol_ant)).astype(np.complex64)    # [t, chan, l2 pol, l2 ant]
@@ -712,6 +756,7 @@ def run_v4(case):
         archived = ['cal', 'continuum']
     syn = v4synth.make_v4(rng, T=T, F=F, n_ants=n_ants, extra_attrs=attrs, extra_sensors=sensors,
                           center_freq=center, bandwidth=bandwidth, pols='hv', archived_streams=archived,
+                          targets=targets, activity=[(-1.0, 'track')] if targets else None,
                           open_kwargs={'applycal': case['products']})
     d = syn.dataset
     with dask.config.set(scheduler='synchronous'):
@@ -732,9 +777,20 @@ def run_v4(case):
         c = np.ones((T, F), dtype=np.complex128)
         if 'l1.K' in applied:
             c *= np.exp(-2j * np.pi * delays[p, a] * freqs)[np.newaxis, :]
-        if 'l1.B' in applied:
+        if 'l1.B' in applied and split:
+            h, sols = split
+            for t in range(T):
+                if t < 2:
+                    # the solution of time -1: its upper part is absent, and a bandpass is not extrapolated
+                    c[t, :h] *= 1.0 / sols[1][:h, p, a].astype(np.complex128)
+                    c[t, h:] = np.nan
+                else:
+                    c[t] *= 1.0 / sols[2][:, p, a].astype(np.complex128)
+        elif 'l1.B' in applied:
             c *= (1.0 / bp[:, p, a].astype(np.complex128))[np.newaxis, :]
-        if 'l1.G' in applied:
+        if 'l1.G' in applied and late:
+            c *= np.nan
+        elif 'l1.G' in applied:
             with np.errstate(all='ignore'):
                 c *= (1.0 / g[:, p, a].astype(np.complex128))[:, np.newaxis]
         if 'l2.GPHASE' in applied:
@@ -876,6 +932,7 @@ def run(ctx):
     cases = corpus_cases()
     cases += [gen_case(ctx.rng) for _ in range(ctx.q(360, 12000))]
     cases += [gen_roundtrip(ctx.rng) for _ in range(ctx.q(16, 400))]
+    cases += [gen_v4(ctx.rng, r) for r in (0.1, 0.2, 0.35)]     # two-target L2, split bandpass, late gains: always
     cases += [gen_v4(ctx.rng) for _ in range(ctx.q(5, 60))]
     bad = eval_any(ctx, cases)
     if not bad and not build['build_ok']:
